@@ -952,7 +952,7 @@ fn gen_error_name(rng: &mut Rng) -> String {
         13 => format!("org.varlink.service.sub.{}", STD_ERRORS[rng.below(4)].rsplit('.').next().unwrap()),
         14 => format!("{}.Extra", STD_ERRORS[rng.below(4)]),
         15 => STD_ERRORS[rng.below(4)].rsplit('.').next().unwrap().to_string(),
-        6 => "org.example.client.Custom".into(),
+        6 => (*rng.pick(&["org.example.client.Custom", "com.example.InvalidParameter", "com.example.MethodNotFound", "x.MethodNotImplemented", "InterfaceNotFound"])).to_string(),
         7 => "org.varlink.service.InterfaceNotFoun".into(),
         8 => "org.varlink.service.interfacenotfound".into(),
         9 => String::new(),
